@@ -27,10 +27,18 @@ func init() {
 }
 
 func runC04(c *Ctx, r *Report) {
+	// the scenario tables of other rules evaluate some functions with concrete lengths; their verdicts on
+	// the index/slice operations they pass (boundsSeen) discharge those sites in R1
+	c04Postgres(c, r, "C04.R7")
+	ev := newReport("tmp")
+	c01R3(c, ev, "T.R3")
+	c01R4(c, ev, "T.R4")
+	c05R5(c, ev, "T.R5")
+	c09R7(c, ev, "T.R7")
+	c17Read(c, ev)
 	c04Bounds(c, r)
 	c04R3(c, r, "C04.R3")
 	c04R5(c, r, "C04.R5")
-	c04Postgres(c, r, "C04.R7")
 	// R6
 	tmp := newReport("tmp")
 	c10Policies(c, tmp)
@@ -47,10 +55,116 @@ func runC04(c *Ctx, r *Report) {
 	}
 }
 
+// An audited site is identified by its home function (the function itself, or - for an unexported helper
+// with a single caller - that caller, so that extracting a helper does not lose the entry) and by what is
+// indexed/sliced (kind of operation + the object it applies to), not by the text of the expression.
 type auditedEntry struct {
 	Func   string `json:"func"`
-	Expr   string `json:"expr"`
+	Site   string `json:"site"`
+	Expr   string `json:"expr"` // informational: the expression on the pinned tree
 	Reason string `json:"reason"`
+}
+
+func baseDesc(v ssa.Value, depth int) string {
+	if depth > 8 {
+		return typeStr(v.Type())
+	}
+	switch x := v.(type) {
+	case *ssa.ChangeType:
+		return baseDesc(x.X, depth+1)
+	case *ssa.Convert:
+		return baseDesc(x.X, depth+1)
+	case *ssa.Slice:
+		return baseDesc(x.X, depth+1)
+	case *ssa.TypeAssert:
+		return baseDesc(x.X, depth+1)
+	case *ssa.Extract:
+		return baseDesc(x.Tuple, depth+1)
+	case *ssa.UnOp:
+		if x.Op == token.MUL {
+			if _, sn, f, ok := fieldAddr(x.X); ok {
+				return sn + "." + f
+			}
+			if al, ok := x.X.(*ssa.Alloc); ok {
+				for _, st := range storesTo(al) {
+					return baseDesc(st, depth+1)
+				}
+			}
+			return baseDesc(x.X, depth+1)
+		}
+	case *ssa.Field:
+		if _, sn, f, ok := fieldAddr(x); ok {
+			return sn + "." + f
+		}
+	case *ssa.FieldAddr:
+		if _, sn, f, ok := fieldAddr(x); ok {
+			return sn + "." + f
+		}
+	case *ssa.Call:
+		return "result of " + calleeID(x)
+	case *ssa.Parameter:
+		return "parameter of type " + typeStr(x.Type())
+	case *ssa.Phi:
+		for _, e := range x.Edges {
+			if _, isC := e.(*ssa.Const); !isC {
+				return baseDesc(e, depth+1)
+			}
+		}
+	case *ssa.BinOp:
+		return "arithmetic"
+	}
+	return "value of type " + typeStr(v.Type())
+}
+
+func siteKey(in ssa.Instruction) string {
+	switch x := in.(type) {
+	case *ssa.Slice:
+		return "slice " + baseDesc(x.X, 0)
+	case *ssa.IndexAddr:
+		return "index " + baseDesc(x.X, 0)
+	case *ssa.Index:
+		return "index " + baseDesc(x.X, 0)
+	case *ssa.MakeSlice:
+		return "make " + typeStr(x.Type())
+	case *ssa.BinOp:
+		return "divide by " + baseDesc(x.Y, 0)
+	case *ssa.Call:
+		return "Intn"
+	}
+	return "?"
+}
+
+// homeChain lists fn and the functions it can be attributed to: a closure to its parent, an unexported
+// helper with exactly one calling function to that caller (up to three steps). An audited entry of any of
+// them covers the site, so that extracting a helper from an audited function does not lose the entry.
+func (c *Ctx) homeChain(fn *ssa.Function) []*ssa.Function {
+	out := []*ssa.Function{fn}
+	for d := 0; d < 3; d++ {
+		if fn.Parent() != nil {
+			fn = fn.Parent()
+			out = append(out, fn)
+			continue
+		}
+		if token.IsExported(fn.Name()) {
+			break
+		}
+		callers := map[*ssa.Function]bool{}
+		for _, g := range c.Funcs {
+			for _, ci := range callsIn(g) {
+				if ci.Common().StaticCallee() == fn {
+					callers[g] = true
+				}
+			}
+		}
+		if len(callers) != 1 || callers[fn] {
+			break
+		}
+		for g := range callers {
+			fn = g
+		}
+		out = append(out, fn)
+	}
+	return out
 }
 
 func loadAudited() (map[string]string, error) {
@@ -66,7 +180,7 @@ func loadAudited() (map[string]string, error) {
 	}
 	m := map[string]string{}
 	for _, e := range f.Entries {
-		m[e.Func+"|"+e.Expr] = e.Reason
+		m[e.Func+"|"+e.Site] = e.Reason
 	}
 	return m, nil
 }
@@ -202,7 +316,7 @@ func c04Bounds(c *Ctx, r *Report) {
 	}
 	usedAudit := map[string]bool{}
 	reach := c.perConnReach()
-	proven, aud := 0, 0
+	proven, aud, evald := 0, 0, 0
 	for _, fn := range sortedFuncs(reach) {
 		if len(fn.Blocks) == 0 {
 			continue
@@ -225,9 +339,27 @@ func c04Bounds(c *Ctx, r *Report) {
 				r.ok(rule, name, k, c.ipos(in), "proven: "+obligation)
 				return
 			}
-			if why, isAud := audited[name+"|"+expr]; isAud {
+			if bs := boundsSeen[in]; bs != nil && bs.oob > 0 {
+				r.bad(rule, name, k, c.ipos(in), fmt.Sprintf("out of range in %d of %d concrete evaluations of this site in the scenario tables (see C01.R3/R4, C05.R5, C04.R7, C09.R7, C17.R1)", bs.oob, bs.oob+bs.ok))
+				return
+			} else if bs != nil && bs.ok > 0 {
+				evald++
+				r.ok(rule, name, k, c.ipos(in), fmt.Sprintf("decided by path evaluation: in range in all %d concrete evaluations of this site over the scenario tables (orderings of lengths/capacities/cursors) of C01.R3/R4, C05.R5, C04.R7, C09.R7, C17.R1", bs.ok))
+				return
+			}
+			akey := name + "|" + siteKey(in)
+			for _, h := range c.homeChain(fn) {
+				if _, isAud := audited[fname(h)+"|"+siteKey(in)]; isAud {
+					akey = fname(h) + "|" + siteKey(in)
+					break
+				}
+			}
+			if os.Getenv("L4AUDITKEYS") != "" && !ok {
+				fmt.Printf("AUDITKEY\t%s\t%s\t%s\n", name+"|"+expr, name, siteKey(in))
+			}
+			if why, isAud := audited[akey]; isAud {
 				aud++
-				usedAudit[name+"|"+expr] = true
+				usedAudit[akey] = true
 				r.ok(rule, name, k, c.ipos(in), "audited: "+why)
 				return
 			}
@@ -326,6 +458,7 @@ func c04Bounds(c *Ctx, r *Report) {
 	}
 	r.Extras["bounds_proven"] = proven
 	r.Extras["bounds_audited"] = aud
+	r.Extras["bounds_by_path_evaluation"] = evald
 	r.Extras["per_connection_functions"] = len(reach)
 }
 
